@@ -1,3 +1,5 @@
+//go:build astexport
+
 package main
 
 // vh astexport <cases.ndjson> <out.ndjson> <scratch>: parses the source text of every case with the REAL parser and exports the
@@ -351,4 +353,9 @@ func cmdRepoTests(args []string) {
 		}
 	}
 	writeCases(args[1], out)
+}
+
+func init() {
+	commands["astexport"] = cmdAstExport
+	commands["repotests"] = cmdRepoTests
 }
